@@ -2,7 +2,7 @@
 # tools/confirm_seeded.sh <PROP>  - independent confirmation of a sub-agent's seeded change in its
 # scratch worktree /tmp/wt/<PROP>: (1) demo fails with the change, (2) demo passes without it,
 # (3) the existing suite passes with the change (demo excluded). Prints a summary.
-P="$1"; WT=/tmp/wt/$P
+P="$1"; WT=${WTROOT:-/tmp/wt}/$P
 cd "$WT" || exit 2
 export CARGO_NET_OFFLINE=true
 [ -f tests/seeded_demo.rs ] || { echo "$P: no tests/seeded_demo.rs"; ls _out; }
